@@ -153,36 +153,70 @@ func VerifC12AccountMoney() {
 //  VerifC12DelAdd (quick + thorough): DelAccount(old)+AddAccount(new). The step
 //    does not depend on WHAT money(a, L) and floor(x/unit) are, only on the totals
 //    accumulating exactly the values the helpers return. They are therefore
-//    uninterpreted functions M(algos, base, unit, level), Q(algos, unit) and an
-//    uninterpreted domain predicate valid(...): the step is proved for EVERY
-//    interpretation, in particular for money()/floor()/"fits 64 bits" of Layer A.
-//    (No 64x64 product is left in the queries; z3 decides them directly.)
+//    uninterpreted: M(algos, base) [at the fixed unit and level], Q(algos) and
+//    a domain predicate valid(...) (see verifC12Ghost): the step is proved for
+//    EVERY interpretation, in particular for money()/floor()/"fits 64 bits" of
+//    Layer A. (No 64x64 product is left in the queries; z3 decides them directly.)
 //  VerifC12DelAddExact (thorough only): the same step with the exact-integer
 //    formulas instead of M, Q, valid (every query goes to the integer back end).
 //  VerifC12ApplyRewards: the level moves L -> L' >= L; exact-integer formulas.
-//    VerifC12MoneyAffine proves the per-account lemma
-//    money(a, L') = money(a, L) + q*(L'-L) which the step then assumes as a hint.
+//    Two instances of the distributive law are assumed as hints (see there).
 //
 // By symmetry of the sums the modified account is account 0. All amounts,
 // bases, levels and the unit are unconstrained 64-bit values inside the domain
 // of zz_verif_c12.go.
 
-// verifC12Abstract selects the uninterpreted model of the per-account helpers.
-var verifC12Abstract bool
-
-func verifC12M(algos, base, unit, level uint64) uint64 {
-	return vr.UF64("c12.M", algos, base, unit, level)
+// verifC12Ghost is the uninterpreted model of the per-account helpers. M, Q and
+// valid are not vr.UF64 applications (the counterexample tapes do not carry
+// function tables, a violation could not be replayed natively) but explicit
+// ghost values: every account gets free values m (= M(account), participating
+// accounts only) and q (= Q(algos)); the two accounts the code may legitimately
+// pass to the helpers (old and new data of the modified account) are registered
+// as table entries, with functional consistency between equal keys assumed.
+// valid(account, unit, level) is assumed for every account of the ledger at
+// (unit, totals.RewardsLevel) and known nowhere else: a helper call with another
+// unit / level / account is a contract violation.
+type verifC12GhostEntry struct {
+	part        bool // has an M entry (participating account)
+	algos, base uint64
+	m, q        uint64
 }
 
-func verifC12Valid(algos, base, unit, level uint64) bool {
-	return vr.UF64("c12.valid", algos, base, unit, level) != 0
+var verifC12Ghost struct {
+	on          bool
+	unit, level uint64
+	n           int
+	e           [2]verifC12GhostEntry
 }
 
-func verifC12Q(algos, unit uint64) uint64 {
-	if verifC12Abstract {
-		return vr.UF64("c12.Q", algos, unit)
+func verifC12B2U(c bool) uint64 {
+	if c {
+		return 1
 	}
-	return verifC12Quot(algos, unit)
+	return 0
+}
+
+func verifC12Pick(c uint64, x, y uint64) uint64 {
+	if c != 0 {
+		return x
+	}
+	return y
+}
+
+func verifC12Register(a verifC12Acct, m uint64) {
+	g := &verifC12Ghost
+	e := verifC12GhostEntry{part: a.st != verifC12NotPart, algos: a.data.MicroAlgos.Raw, base: a.data.RewardsBase, m: m, q: a.q}
+	if g.n == 1 {
+		o := g.e[0]
+		sameAlgos := verifC12B2U(o.algos == e.algos)
+		vr.Assume(vr.Implies(sameAlgos != 0, o.q == e.q))
+		if o.part && e.part {
+			sameKey := sameAlgos & verifC12B2U(o.base == e.base)
+			vr.Assume(vr.Implies(sameKey != 0, o.m == e.m))
+		}
+	}
+	g.e[g.n] = e
+	g.n++
 }
 
 // Contract of AccountData.Money established by VerifC12AccountMoney.
@@ -192,9 +226,12 @@ func verifStubMoney(u AccountData, unit uint64, level uint64) (basics.MicroAlgos
 	}
 	vr.Assert("c12.contract.unit-nonzero", unit != 0)
 	var m uint64
-	if verifC12Abstract {
-		vr.Assert("c12.contract.money-domain", verifC12Valid(u.MicroAlgos.Raw, u.RewardsBase, unit, level))
-		m = verifC12M(u.MicroAlgos.Raw, u.RewardsBase, unit, level)
+	if g := &verifC12Ghost; g.on {
+		vr.Assert("c12.contract.money-domain", unit == g.unit && level == g.level)
+		is0 := verifC12B2U(g.e[0].part) & verifC12B2U(g.e[0].algos == u.MicroAlgos.Raw) & verifC12B2U(g.e[0].base == u.RewardsBase)
+		is1 := verifC12B2U(g.e[1].part) & verifC12B2U(g.e[1].algos == u.MicroAlgos.Raw) & verifC12B2U(g.e[1].base == u.RewardsBase)
+		vr.Assert("c12.contract.money-known-account", is0|is1 != 0)
+		m = verifC12Pick(is0, g.e[0].m, g.e[1].m)
 	} else {
 		q := verifC12Quot(u.MicroAlgos.Raw, unit)
 		vr.Assert("c12.contract.base-le-level", u.RewardsBase <= level)
@@ -207,7 +244,14 @@ func verifStubMoney(u AccountData, unit uint64, level uint64) (basics.MicroAlgos
 
 func verifStubRewardUnitsB(m basics.MicroAlgos, unit uint64) uint64 {
 	vr.Assert("c12.contract.unit-nonzero", unit != 0)
-	return verifC12Q(m.Raw, unit)
+	if g := &verifC12Ghost; g.on {
+		vr.Assert("c12.contract.units-domain", unit == g.unit)
+		is0 := verifC12B2U(g.e[0].algos == m.Raw)
+		is1 := verifC12B2U(g.e[1].algos == m.Raw)
+		vr.Assert("c12.contract.units-known-account", is0|is1 != 0)
+		return verifC12Pick(is0, g.e[0].q, g.e[1].q)
+	}
+	return verifC12Quot(m.Raw, unit)
 }
 
 // verifC12Acct is one account together with its ghost quotient.
@@ -225,19 +269,22 @@ func verifC12Account(label string, unit uint64, status int) verifC12Acct {
 	a.data.MicroAlgos.Raw = vr.U64(label + ".algos")
 	a.data.RewardsBase = vr.U64(label + ".base")
 	a.data.RewardedMicroAlgos.Raw = vr.U64(label + ".rewarded")
-	a.q = verifC12Q(a.data.MicroAlgos.Raw, unit)
+	if verifC12Ghost.on {
+		a.q = vr.U64(label + ".Q")
+	} else {
+		a.q = verifC12Quot(a.data.MicroAlgos.Raw, unit)
+	}
 	return a
 }
 
 // verifC12AssumeValidAt restricts the account to the domain at `level` and
 // returns money(a, level) (which fits 64 bits inside the domain).
-func verifC12AssumeValidAt(a verifC12Acct, unit, level uint64) uint64 {
+func verifC12AssumeValidAt(label string, a verifC12Acct, level uint64) uint64 {
 	if a.st == verifC12NotPart {
 		return a.data.MicroAlgos.Raw
 	}
-	if verifC12Abstract {
-		vr.Assume(verifC12Valid(a.data.MicroAlgos.Raw, a.data.RewardsBase, unit, level))
-		return verifC12M(a.data.MicroAlgos.Raw, a.data.RewardsBase, unit, level)
+	if verifC12Ghost.on {
+		return vr.U64(label + ".M")
 	}
 	vr.Assume(a.data.RewardsBase <= level)
 	exact := verifC12MoneyExact(a.data.MicroAlgos.Raw, a.q, a.data.RewardsBase, level)
@@ -362,13 +409,18 @@ func verifC12DelAdd() {
 			prev = status
 		}
 		accts[i] = verifC12Account(verifC12Labels[i], unit, status)
-		money[i] = verifC12AssumeValidAt(accts[i], unit, level)
+		money[i] = verifC12AssumeValidAt(verifC12Labels[i], accts[i], level)
 		pre.add(accts[i], money[i])
 	}
 	verifC12AssumeInv(&t, pre)
 
 	nw := verifC12Account("new", unit, vr.Choice("new.status", 3))
-	nwMoney := verifC12AssumeValidAt(nw, unit, level)
+	nwMoney := verifC12AssumeValidAt("new", nw, level)
+	if verifC12Ghost.on {
+		verifC12Ghost.unit, verifC12Ghost.level, verifC12Ghost.n = unit, level, 0
+		verifC12Register(accts[0], money[0])
+		verifC12Register(nw, nwMoney)
+	}
 
 	var ot basics.OverflowTracker
 	t.DelAccount(unit, accts[0].data, &ot)
@@ -398,7 +450,7 @@ func verifC12DelAdd() {
 //verif:stub (github.com/algorand/go-algorand/ledger/ledgercore.AccountData).Money = verifStubMoney
 //verif:stub (github.com/algorand/go-algorand/data/basics.MicroAlgos).RewardUnits = verifStubRewardUnitsB
 func VerifC12DelAdd() {
-	verifC12Abstract = true
+	verifC12Ghost.on = true
 	verifC12DelAdd()
 }
 
@@ -406,21 +458,48 @@ func VerifC12DelAdd() {
 //verif:stub (github.com/algorand/go-algorand/ledger/ledgercore.AccountData).Money = verifStubMoney
 //verif:stub (github.com/algorand/go-algorand/data/basics.MicroAlgos).RewardUnits = verifStubRewardUnitsB
 func VerifC12DelAddExact() {
-	verifC12Abstract = false
+	verifC12Ghost.on = false
 	verifC12DelAdd()
 }
 
-// Lemma used by the ApplyRewards step: for one participating account with
-// base <= L <= L', money(a, L') = money(a, L) + q*(L'-L), for ANY q.
+// ---- ApplyRewards ----
 //
-//verif:harness prop=C12 reach=done budget=100
-func VerifC12MoneyAffine() {
-	algos, q, base, l0, l1 := vr.U64("algos"), vr.U64("q"), vr.U64("base"), vr.U64("level"), vr.U64("newlevel")
-	vr.Assume(base <= l0)
-	vr.Assume(l0 <= l1)
-	lhs := verifC12MoneyExact(algos, q, base, l1)
-	rhs := verifC12MoneyExact(algos, q, base, l0).Add(vr.ZU(q).Mul(vr.ZU(l1 - l0)))
-	vr.Assert("c12.lemma.affine", lhs.Eq(rhs))
+// The step needs two instances of the distributive law of the integers:
+//   (H1) q*(L'-b) = q*(L-b) + q*(L'-L)           per participating account
+//   (H2) U*(L'-L) = SUM q_i*(L'-L)  if U = SUM q_i   per participating status
+// Both are ring identities over vr.Z exact integers, i.e. true for all values;
+// assuming a true statement removes no state. They have to be ASSUMED because
+// the portfolio cannot prove distributivity of 64x64-bit products in the
+// bit-vector encoding of vr.Z (see notes/engine_requests.md; the same formulas
+// over the Int sort are decided in < 1 s by every back end). VerifC12HintsGrid
+// evaluates exactly these helper functions on the full grid {0,1,2}^k; since
+// lhs-rhs is a polynomial of degree <= 1 in each variable, vanishing on a grid
+// with >= 2 points per variable means it is the zero polynomial - so the grid
+// run is an exhaustive check that the hints are stated correctly.
+
+func verifC12HintAffine(q, base, l0, l1 uint64) bool {
+	zq := vr.ZU(q)
+	return zq.Mul(vr.ZU(l1 - base)).Eq(zq.Mul(vr.ZU(l0 - base)).Add(zq.Mul(vr.ZU(l1 - l0))))
+}
+
+func verifC12HintSum(u uint64, qs []uint64, d uint64) bool {
+	sum, prods := vr.ZU(0), vr.ZU(0)
+	for _, q := range qs {
+		sum = sum.Add(vr.ZU(q))
+		prods = prods.Add(vr.ZU(q).Mul(vr.ZU(d)))
+	}
+	return vr.Implies(vr.ZU(u).Eq(sum), vr.ZU(u).Mul(vr.ZU(d)).Eq(prods))
+}
+
+//verif:harness prop=C12 reach=done paths=4000 budget=100
+func VerifC12HintsGrid() {
+	q, base, d0, dd := uint64(vr.Choice("q", 3)), uint64(vr.Choice("base", 3)), uint64(vr.Choice("d0", 3)), uint64(vr.Choice("dd", 3))
+	vr.Assert("c12.hint.affine", verifC12HintAffine(q, base, base+d0, base+d0+dd))
+	q1, q2 := uint64(vr.Choice("q1", 3)), uint64(vr.Choice("q2", 3))
+	vr.Assert("c12.hint.sum1", verifC12HintSum(q, []uint64{q}, dd))
+	vr.Assert("c12.hint.sum2", verifC12HintSum(q+q1, []uint64{q, q1}, dd))
+	vr.Assert("c12.hint.sum3", verifC12HintSum(q+q1+q2, []uint64{q, q1, q2}, dd))
+	vr.Assert("c12.hint.sum0", verifC12HintSum(0, nil, dd))
 	vr.Reach("done")
 }
 
@@ -433,7 +512,7 @@ func VerifC12MoneyAffine() {
 //verif:harness prop=C12 reach=done,clean,overflow,reports unwind=12 budget=200 thorough.budget=2400
 //verif:stub (*github.com/algorand/go-algorand/data/basics.OverflowTracker).Mul = verifStubOTMul
 func VerifC12ApplyRewards() {
-	verifC12Abstract = false
+	verifC12Ghost.on = false
 	t := verifC12ArbitraryTotals()
 	level := t.RewardsLevel
 	newLevel := vr.U64("newlevel")
@@ -442,6 +521,7 @@ func VerifC12ApplyRewards() {
 
 	pre := verifC12Zero()
 	post := verifC12Zero()
+	var qs [3][]uint64
 	prev := 0
 	for i := 0; i < n; i++ {
 		var a verifC12Acct
@@ -451,16 +531,18 @@ func VerifC12ApplyRewards() {
 		a.data.MicroAlgos.Raw = vr.U64(verifC12Labels[i] + ".algos")
 		a.data.RewardsBase = vr.U64(verifC12Labels[i] + ".base")
 		a.q = vr.U64(verifC12Labels[i] + ".q")
-		m0 := verifC12AssumeValidAt(a, 0, level)
-		m1 := verifC12AssumeValidAt(a, 0, newLevel)
+		m0 := verifC12AssumeValidAt("", a, level)
+		m1 := verifC12AssumeValidAt("", a, newLevel)
 		if a.st != verifC12NotPart {
-			// hint: VerifC12MoneyAffine
-			vr.Assume(vr.ZU(m1).Eq(vr.ZU(m0).Add(vr.ZU(a.q).Mul(vr.ZU(newLevel - level)))))
+			vr.Assume(verifC12HintAffine(a.q, a.data.RewardsBase, level, newLevel)) // (H1)
 		}
+		qs[a.st] = append(qs[a.st], a.q)
 		pre.add(a, m0)
 		post.add(a, m1)
 	}
 	verifC12AssumeInv(&t, pre)
+	vr.Assume(verifC12HintSum(t.Online.RewardUnits, qs[verifC12Online], newLevel-level))   // (H2)
+	vr.Assume(verifC12HintSum(t.Offline.RewardUnits, qs[verifC12Offline], newLevel-level)) // (H2)
 
 	var ot basics.OverflowTracker
 	t.ApplyRewards(newLevel, &ot)
